@@ -2,27 +2,30 @@ import os, subprocess
 import common
 
 CONFIG = {
-    "rule": "cases = (consumer, producer kind, script) rendered to Python source and run end-to-end (compile + VM + stdlib), and (generator templates, interleaved next/send history); "
-            "iterator cases: 31 consumers x {user __next__ class, generator, map() over a builtin list iterator, __getitem__ sequence, generator expression, builtin list iterator} x EVERY script of length <=4 (quick) / <=5 (thorough) over "
+    "rule": "cases = (consumer, producer kind, script) rendered to Python source and run end-to-end (compile + VM + stdlib), (generator templates, interleaved next/send/throw/close history), and (generator body of a small statement language, history); "
+            "iterator cases: 40 consumers (round 2 adds list.extend, list +=, set.update, dict.update, slice assignment, sorted key=, min/max key= and default=) x {user __next__ class, generator, map() over a builtin list iterator, __getitem__ sequence, generator expression, builtin list iterator} x EVERY script of length <=4 (quick) / <=5 (thorough) over "
             "{item, raise StopIteration, raise StopIteration(), StopIteration(v)/return v, raise KeyError}, adapters enumerate/map/filter/zip under 7 outer consumers, plus VERIF_SEED-derived scripts up to length 8 with 7 exception classes; "
-            "generator cases: all next/send sequences of length <=4 (quick) / <=5 (thorough) over an 8-operation alphabet on 3 live generators (loops with locals, try/finally, early return, raise, yield from) plus seeded histories up to 12 operations; "
-            "non-trivial = the script contains a stop or raise step (iterator cases) / the history has >= 2 operations (generator cases); distinct = distinct input lines",
+            "generator cases: all next/send sequences of length <=4 (quick) / <=5 (thorough) over a 9-operation alphabet and all next/send/throw/close sequences of length <=3 / <=4 over an 11-operation alphabet on 4 sets of 3 live generators (loops with locals, try/finally, early return, raise, yield from, a handler that re-raises after a yield) plus seeded histories up to 12 operations; "
+            "body cases: the family {break, continue, return, raise, fall-through, yield} crossing a finally clause that yields (with/without a loop, nested, under a handler, loops inside the finally clause, handlers for the thrown exception and for GeneratorExit; 61 bodies) x all next/send/throw/close histories of length <=4, and EVERY valid body of nesting depth <=1 over 7 atoms x all histories of length <=3 (148 distinct bodies in the quick tier; thorough: histories <=4 and one more nesting level, 627 distinct bodies); each body case is run three ways: compiled body on the RunFrame model, reference coroutine, real compiler+VM; "
+            "non-trivial = the script contains a stop or raise step (iterator cases) / the history has >= 2 operations (generator and body cases); distinct = distinct input lines",
     "trusted_base": [
         "Lean 4.33.0 kernel; axioms allowed: propext, Classical.choice, Quot.sound (audited per theorem on every run)",
-        "lean/GPy/C05/Spec.lean: my transcription of Python's iterator protocol (items up to the first StopIteration raised as class/instance/with value, other exceptions propagate) and of each consumer's own result; `Runs` = what it means for a Go iterator object to realise a script",
-        "lean/GPy/C05/Model.lean: hand transliteration of py.Iterate, SequenceTuple/List/Set, SequenceContains, String.Join, do_FOR_ITER, unpack_iterable, Vm.Call star-args, builtin all/any/sum/min_max/sorted/next, Zip/Map/Filter/EnumerateIterator.M__next__, Iterator.M__next__, Generator.Send/M__next__, do_YIELD_FROM; "
-        "the form of the error test of every py.Next call site is NOT hand-written: it is read from lean/GPy/C05/Generated.lean, regenerated from the Go sources by extract/itersites on every run",
-        "the frame run (vm.RunFrame) is abstracted to a parameter with three outcomes (yield v / return v / raise e); that RunFrame leaves Lasti != 0 and sets Yielded as YIELD_VALUE/RETURN_VALUE say is tied by the correspondence run only",
-        "extract/itersites (go/ast classification of the test applied to the error of py.Next), harness/c05.go, checks/common.py",
+        "lean/GPy/C05/Spec.lean: my transcription of Python's iterator protocol (items up to the first StopIteration raised as class/instance/with value, other exceptions propagate), of each consumer's own result, and of the generator methods next/send/throw/close over a coroutine (`specOps`); `Runs` = what it means for a Go iterator object to realise a script",
+        "lean/GPy/C05/Body.lean: reference semantics of generator bodies (yield inside loops, try/finally, try/except; break/continue/return/raise crossing them) as a coroutine in continuation-passing style",
+        "lean/GPy/C05/Model.lean: hand transliteration of py.Iterate, SequenceTuple/List/Set, List.ExtendSequence, SequenceContains, String.Join, do_FOR_ITER, unpack_iterable, Vm.Call star-args, builtin all/any/sum/min_max (key=, default=)/sorted/next, Zip/Map/Filter/EnumerateIterator.M__next__, Iterator.M__next__, Generator.resume/Send/Throw/Close/M__next__, do_YIELD_FROM; "
+        "lean/GPy/C05/Frame.lean: transliteration of vm.RunFrame (fetch/dispatch, exception on entry through Frame.Throw, the unwinding loop, YIELD_VALUE/RETURN_VALUE/END_FINALLY/POP_EXCEPT/FOR_ITER/SETUP_*/BREAK_LOOP/CONTINUE_LOOP) for the instruction subset generator bodies compile to, with the split between what lives in *py.Frame (survives a suspension) and the per-call Vm fields; "
+        "the form of the error test of every py.Next call site and of every call of the helpers built on it (py.Iterate, SequenceList/Tuple/Set, ExtendSequence) is NOT hand-written: it is read from lean/GPy/C05/Generated.lean, regenerated from the Go sources by extract/itersites on every run",
+        "extract/itersites (go/ast classification of the test applied to the error of py.Next / of a derived helper), harness/c05.go, checks/common.py",
     ],
     "assumptions": [
-        "generator.throw()/close() are not implemented in gpython (known finding C05-K01) and are not modelled",
-        "per-item operations (truth test, ==, +, <=/>=, sort) are parameters of the theorems (they hold for every behaviour, including raising); the correspondence run instantiates them with ints/strs",
-        "min/max are modelled without key=; stdlib/array (outside the anchored files) still compares with StopIteration by identity",
+        "per-item operations (truth test, ==, +, <=/>=, sort, key function) are parameters of the theorems (they hold for every behaviour, including raising); the correspondence run instantiates them with ints/strs",
+        "generator.throw(): the parsing of (type, value, traceback) into an exception instance is outside the model (the model starts from the instance); the traceback argument is ignored by gpython",
+        "that the bytecode of an arbitrary generator body run by RunFrame implements the reference coroutine (compiler + VM correctness for bodies) is tied by the correspondence run over the enumerated bodies, and proved only for the families named in Props.lean",
+        "stdlib/array (outside the anchored files) still compares with StopIteration by identity",
     ],
     "exhaustive": True,
     "dist_tokens": 2,
-    "group": lambda r: " ".join(r["input"].split(" ")[:3]),
+    "group": lambda r: " ".join(r["input"].split(" ")[:3])[:120],
 }
 
 
@@ -38,4 +41,7 @@ def pre(run):
         return
     rc, out = common.sh([binp, common.REPO, os.path.join(common.LEAN, "GPy", "C05", "Generated.lean")], timeout=600)
     sites = [l.split()[1:] for l in out.splitlines() if l.startswith("SITE ")]
-    run.cov["site_table"] = {"sites": len(sites), "rows": [" ".join(s) for s in sites]} if rc == 0 else "EXTRACTOR FAILED: " + out[-300:]
+    derived = [l.split()[1:] for l in out.splitlines() if l.startswith("DERIVED ")]
+    run.cov["site_table"] = {"sites": len(sites), "rows": [" ".join(s) for s in sites],
+                             "derived_sites": len(derived), "derived_rows": [" ".join(s) for s in derived],
+                             "derived_not_forward": [" ".join(s) for s in derived if s[-1] != "forward"]} if rc == 0 else "EXTRACTOR FAILED: " + out[-300:]
